@@ -404,6 +404,46 @@ fn check_inverse(cx: &mut Ctx, c: Civ, r: &mut Rng) {
     }
 }
 
+/// A weekday that contradicts a date determined by other fields must be rejected, whichever way the date is
+/// determined (month/day, day of year, %F, month name) and whichever way the weekday is written (%a %A %u %w);
+/// the right weekday must be accepted and give the date.
+fn check_weekday_contradiction(cx: &mut Ctx, c: Civ, r: &mut Rng) {
+    if c.ymd().0 < 0 {
+        return;
+    }
+    let Some(dt) = dt_of(c) else { return };
+    let df = *r.pick(&["%Y-%m-%d", "%Y-%j", "%F", "%d %b %Y", "%B %e, %Y", "%Y%m%d", "%j of %Y"]);
+    let ws = *r.pick(&["%a", "%A", "%u", "%w"]);
+    let first = r.chance(1, 2);
+    let fmt = if first { format!("{} {}", ws, df) } else { format!("{} {}", df, ws) };
+    let case = || format!("wd|{}|{}|{}", c.day, c.nod, fmt);
+    let Ok(Some(dtext)) = guard(|| jiff::fmt::strtime::format(df, dt).ok()) else { return };
+    let wd_text = |day: i64| model_spec(ws, Civ { day, nod: 0 }).unwrap_or_default();
+    let shift = r.range(1, 6);
+    // same weekday text for a day `shift` days later: a wrong weekday for this date
+    let wrong = wd_text(c.day + shift);
+    let right = wd_text(c.day);
+    let mk = |w: &str| if first { format!("{} {}", w, dtext) } else { format!("{} {}", dtext, w) };
+    cx.eval(2);
+    let bad = mk(&wrong);
+    match guard(|| Date::strptime(&fmt, &bad).ok().map(gen::day_of_date)) {
+        Err(p) => cx.violation(&format!("strptime(contradictory weekday)/panic@{}", p.loc()), case, || "Err".into(), || p.what.clone()),
+        Ok(Some(d)) => cx.violation(&format!("strptime/accepts-contradictory-weekday[{} with {}]", ws, df), case, || "Err".into(), || format!("{:?} gives day {}", bad, d)),
+        Ok(None) => {}
+    }
+    let good = mk(&right);
+    let tuesday_a = ws == "%A" && cal::weekday_from_days(c.day) == 2;
+    match guard(|| Date::strptime(&fmt, &good).ok().map(gen::day_of_date)) {
+        Err(p) => cx.violation(&format!("strptime(consistent weekday)/panic@{}", p.loc()), case, || "Ok".into(), || p.what.clone()),
+        Ok(None) if tuesday_a => cx.violation("strptime(%A)/rejects-\"Tuesday\"", case, || format!("{}", c.day), || format!("Err from {:?}", good)),
+        Ok(got) => {
+            if got != Some(c.day) {
+                cx.violation(&format!("strptime/consistent-weekday[{} with {}]", ws, df), case, || format!("{}", c.day), || format!("{:?} from {:?}", got, good));
+            }
+        }
+    }
+}
+
 // ---------------------------------------------------------------------------
 // zoned specifiers and RFC 2822
 
@@ -675,6 +715,7 @@ pub fn run(cx: &mut Ctx) {
         let c = gen::gen_civ(&mut r);
         check_flags(cx, c, &mut r);
         check_inverse(cx, c, &mut r);
+        check_weekday_contradiction(cx, c, &mut r);
         if i % 8 == 0 {
             cx.nontrivial(hash_mix(c.day as u64, c.nod as u64));
         }
@@ -734,12 +775,13 @@ fn replay(cx: &mut Ctx, case: &str) {
             check_specs(cx, c, &DATE_SPECS, true);
             check_specs(cx, c, &TIME_SPECS, true);
         }
-        "flag" | "inv" => {
+        "flag" | "inv" | "wd" => {
             let c = Civ { day: n(1) as i64, nod: n(2) as i64 };
             for s in 0..400 {
                 let mut r = Rng::new(s);
                 check_flags(cx, c, &mut r);
                 check_inverse(cx, c, &mut r);
+                check_weekday_contradiction(cx, c, &mut r);
             }
         }
         "zoned" => {
